@@ -88,7 +88,7 @@ inductive Outcome (α : Type)
 
 /-- classes of `checkNativeFunc` errors (the messages name them) -/
 inductive CheckErr
-  | keyword | notFunc | param (i : Nat) | ret | ret1 | ret2NotError | tooManyResults
+  | keyword | notFunc | nilFunc | param (i : Nat) | ret | ret1 | ret2NotError | tooManyResults
   deriving DecidableEq, Repr
 
 /-- `param = typ.In(i)`, with `param.Elem()` for the last parameter of a variadic function -/
@@ -109,13 +109,15 @@ def checkResults : List Ty → Option CheckErr
   | [r, e] => if !validNativeType r then some .ret1 else if e != .error then some .ret2NotError else none
   | _ => some .tooManyResults
 
-/-- `checkNativeFunc name f`; `isKeyword` = `lexer.KeywordToken(name) != ILLEGAL` -/
+/-- `checkNativeFunc name f`; `isKeyword` = `lexer.KeywordToken(name) != ILLEGAL`. An untyped nil (`typ == nil`) is "not a
+function"; a nil value of function type is rejected before the signature is looked at. -/
 def checkNativeFunc (isKeyword : Bool) (f : FVal) : Outcome Unit × Option CheckErr :=
   if isKeyword then (.err [], some .keyword) else
   match f with
-  | .untypedNil => (.panic "nil Type: typ.Kind() on a nil reflect.Type", none)
+  | .untypedNil => (.err [], some .notFunc)
   | .other _ => (.err [], some .notFunc)
-  | .func s _ =>
+  | .func s isNil =>
+    if isNil then (.err [], some .nilFunc) else
     match checkParams s s.params 0 with
     | some e => (.err [], some e)
     | none =>
